@@ -75,7 +75,7 @@ struct OpExec {                         // one executed operation on one node
 	std::vector<LogEv> logs;
 	Obs before, after;
 	// serialization
-	std::vector<uint8_t> saved_bytes; bool canary_ok = true; int snapshot_index = -1;
+	std::vector<uint8_t> saved_bytes, loaded_bytes; bool canary_ok = true; int snapshot_index = -1;
 	bool saved_active = false; int saved_state = -1;           // LOAD: what the snapshot holds
 	bool budget_exceeded = false;
 	OpExec() { memset(payload, 0, sizeof(payload)); memset(mask, 0, sizeof(mask)); }
@@ -87,6 +87,7 @@ struct Node {
 	void* inst = 0; int slot = -1; bool alive = false; int role = ROLE_AUTH; int ctx_slot = 0; uint64_t tag = 0;
 	Tracked T;
 	uint64_t digest_full = 0, digest_neutral = 0;
+	uint64_t last_obs = 0; bool last_obs_set = false;
 };
 
 struct Snapshot { std::vector<uint8_t> bytes; bool active; int state; std::vector<uint8_t> objmem; };
@@ -102,6 +103,7 @@ void mark_nontrivial(const char* probe);
 void check_static(std::vector<Violation>& out);
 uint64_t hash_op(const OpExec& x, bool neutral);
 uint64_t abstract_state(const Node& n, const Obs& o);
+uint64_t obs_hash(const Obs& o);
 
 static inline bool bit_get(const uint8_t* b, unsigned i) { return (b[i >> 3] >> (i & 7)) & 1; }
 static inline void bit_set(uint8_t* b, unsigned i, bool v) { if (v) b[i >> 3] = static_cast<uint8_t>(b[i >> 3] | (1u << (i & 7))); else b[i >> 3] = static_cast<uint8_t>(b[i >> 3] & ~(1u << (i & 7))); }
